@@ -408,6 +408,10 @@ func (ex *Exec) symVal(st *State, name string, t types.Type, depth int) Val {
 		}
 		return PtrV{K: PBig, Ref: r, Elem: t.(*types.Pointer).Elem()}
 	}
+	if _, isTP := t.(*types.TypeParam); isTP {
+		// a value of type-parameter type: only stored and compared; an opaque identity
+		return OpaqueV{Typ: t, Id: ex.declInput(name+"!tp", IntSort)}
+	}
 	switch u := t.Underlying().(type) {
 	case *types.Basic:
 		if _, _, ok := intInfo(t); ok {
@@ -464,7 +468,7 @@ func (ex *Exec) symVal(st *State, name string, t types.Type, depth int) Val {
 		st.Mem[r] = ex.declInput(name+"!data", ex.regionSort(u.Elem()))
 		return ArrayV{Typ: u, Region: r}
 	case *types.Map:
-		return OpaqueV{Typ: t, Id: ex.declInput(name+"!map", IntSort)}
+		return ex.symMap(st, name, u)
 	case *types.TypeParam:
 		return OpaqueV{Typ: t, Id: ex.declInput(name+"!tp", IntSort)}
 	}
@@ -516,6 +520,10 @@ func (ex *Exec) zeroVal(st *State, t types.Type) Val {
 	if isBigIntPtr(t) {
 		return PtrV{K: PBig, Ref: IntC(0), Elem: t.(*types.Pointer).Elem()}
 	}
+	if _, isTP := t.(*types.TypeParam); isTP {
+		// the zero value of a type parameter's type: an opaque value with identity 0
+		return OpaqueV{Typ: t, Id: IntC(0)}
+	}
 	switch u := t.Underlying().(type) {
 	case *types.Basic:
 		if _, _, ok := intInfo(t); ok {
@@ -547,7 +555,10 @@ func (ex *Exec) zeroVal(st *State, t types.Type) Val {
 	case *types.Signature:
 		return PtrV{K: PNil}
 	case *types.Map:
-		return PtrV{K: PNil}
+		return MapV{Typ: u}
+	case *types.TypeParam:
+		// the zero value of a type parameter's type: an opaque value with identity 0
+		return OpaqueV{Typ: t, Id: IntC(0)}
 	case *types.Array:
 		r := ex.newRegion("zeroarr", u.Elem(), u.Len())
 		es, _ := ex.elemSort(u.Elem())
@@ -1324,8 +1335,7 @@ func (ex *Exec) runDefersPanicking(st *State, fr *Frame) bool {
 }
 
 func (ex *Exec) mapInstr(st *State, fr *Frame, ins ssa.Instruction) bool {
-	ex.reject("map instruction %s not supported", ins)
-	return true
+	return ex.mapStep(st, fr, ins)
 }
 
 // ---------- operators ----------
@@ -1672,6 +1682,11 @@ func (ex *Exec) valEq(st *State, a, b Val, t types.Type) *Term {
 		}
 		if y, ok := b.(PtrV); ok && y.K == PNil {
 			return Eq(x.Id, IntC(0))
+		}
+	case MapV:
+		// maps are only comparable with nil
+		if y, ok := b.(MapV); ok && (x.Cell == nil || y.Cell == nil) {
+			return BoolC(x.Cell == nil && y.Cell == nil)
 		}
 	case ClosureV:
 		if y, ok := b.(PtrV); ok && y.K == PNil {
